@@ -104,6 +104,6 @@ def queries(tier):
     return qs
 
 MANIFEST = {
-    "text": "Bounded symbolic check of the real sub.c (and pub.c): every event skeleton up to the stated length with symbolic topic and body bytes; at every arrival each context independently gets the message iff a current subscription prefixes the body and its buffer policy admits it, exactly one message is dropped on overflow (oldest iff PREFNEW), unsubscribe purges exactly the non-matching queued messages, deliveries are unique, unaltered and in publication order.",
+    "text": "Bounded symbolic check of the real sub.c (skeletons with symbolic topic and body bytes against a reference prefix matcher: delivery iff a current subscription prefixes the body, per context, drop policy PREFNEW per context, unsubscribe filters the buffer, order, waiters served in order), of the real pub.c against a per-subscriber reference model (busy + bounded FIFO, oldest dropped when full, never blocks or fails, bytes unchanged, one reference per pending place) and of the raw xsub.c hand-up (in order, new message dropped whole when the queue is full).",
     "note": "aio framework and messages are verified models; bodies/topics up to 2 bytes; events atomic.",
 }
